@@ -137,4 +137,93 @@ Section Ordered.
         rewrite firstn_length, Nat.min_l by lia. now rewrite Nat.sub_diag. }
       subst a. tauto.
   Qed.
+
+  (* ---------- tight packing ---------- *)
+  Lemma et_length lo offs l hi : elems_tight L lo offs l hi -> length offs = length l.
+  Proof.
+    revert lo l. induction offs as [|a offs IH]; intros lo [|t l] H; cbn [elems_tight elems_ordered nth firstn skipn eo_end length app map] in *; try contradiction; auto.
+    destruct H as (_ & H). f_equal. eapply IH; eauto.
+  Qed.
+
+  (* the next element goes to first_align of the current end of data *)
+  Lemma et_snoc lo offs l hi a t : elems_tight L lo offs l hi -> a = first_align L hi ->
+    first_align L (first_align L (eo_end lo offs l)) = first_align L (eo_end lo offs l) ->
+    elems_tight L lo (offs ++ [a]) (l ++ [t]) (elem_end L a t).
+  Proof.
+    revert lo l. induction offs as [|b offs IH]; intros lo [|u l] H Ha Hid; cbn [elems_tight elems_ordered nth firstn skipn eo_end length app map] in *; try contradiction.
+    - split; [|left; reflexivity]. destruct H as [->| ->]; [exact Ha|]. rewrite Ha. exact Hid.
+    - destruct H as (H1 & H). split; [exact H1|]. apply IH; auto.
+  Qed.
+
+  Lemma et_nth n lo offs l hi : elems_tight L lo offs l hi -> (n < length offs)%nat ->
+    nth n offs 0 = first_align L (eo_end lo (firstn n offs) (firstn n l)).
+  Proof.
+    revert lo offs l. induction n as [|n IH]; intros lo [|a offs] [|t l] H Hn; cbn [elems_tight elems_ordered nth firstn skipn eo_end length app map] in *; try contradiction; try lia.
+    destruct H as (_ & H). apply IH; auto. lia.
+  Qed.
+
+  Lemma et_firstn n lo offs l hi : elems_tight L lo offs l hi -> (n < length offs)%nat ->
+    elems_tight L lo (firstn n offs) (firstn n l) (nth n offs 0).
+  Proof.
+    revert lo offs l. induction n as [|n IH]; intros lo [|a offs] [|t l] H Hn; cbn [elems_tight elems_ordered nth firstn skipn eo_end length app map] in *; try contradiction; try lia.
+    destruct H as (H1 & H). split; [exact H1|]. apply IH; auto. lia.
+  Qed.
+
+  Lemma et_skipn n lo offs l hi : elems_tight L lo offs l hi ->
+    elems_tight L (eo_end lo (firstn n offs) (firstn n l)) (skipn n offs) (skipn n l) hi.
+  Proof.
+    revert lo offs l. induction n as [|n IH]; intros lo offs l H; [exact H|].
+    destruct offs as [|a offs]; destruct l as [|t l]; cbn [elems_tight elems_ordered nth firstn skipn eo_end length app map] in *; try contradiction; [exact H|].
+    destruct H as (_ & H). apply IH. exact H.
+  Qed.
+
+  Lemma et_change_lo lo lo' a offs t l hi :
+    elems_tight L lo (a :: offs) (t :: l) hi -> a = first_align L lo' -> elems_tight L lo' (a :: offs) (t :: l) hi.
+  Proof. cbn. tauto. Qed.
+
+  Lemma et_shift lo offs l hi d : (SA L | d) -> elems_tight L lo offs l hi ->
+    elems_tight L (lo + d) (map (fun x => x + d) offs) l (hi + d).
+  Proof.
+    intros Hd. revert lo l. induction offs as [|a offs IH]; intros lo [|t l] H; cbn [elems_tight elems_ordered nth firstn skipn eo_end length app map] in *; try contradiction.
+    - rewrite first_align_shift by auto. lia.
+    - destruct H as (H1 & H). split; [rewrite first_align_shift by auto; lia|].
+      rewrite elem_end_shift by auto. apply IH. exact H.
+  Qed.
+
+  Lemma et_set_hi lo offs l hi hi' : elems_tight L lo offs l hi ->
+    hi' = eo_end lo offs l \/ hi' = first_align L (eo_end lo offs l) -> elems_tight L lo offs l hi'.
+  Proof.
+    revert lo l. induction offs as [|a offs IH]; intros lo [|t l] H Hh; cbn [elems_tight eo_end] in *; try contradiction.
+    - exact Hh.
+    - destruct H as (H1 & H). split; [exact H1|]. apply IH; auto.
+  Qed.
+
+  Lemma eo_end_snoc lo offs l a t : length offs = length l ->
+    eo_end lo (offs ++ [a]) (l ++ [t]) = elem_end L a t.
+  Proof. intros Hl. rewrite eo_end_app by auto. reflexivity. Qed.
+
+  (* a non-empty tight chain behind a tight chain *)
+  Lemma et_app lo o1 l1 h1 a o2 t l2 hi : elems_tight L lo o1 l1 h1 ->
+    elems_tight L (eo_end lo o1 l1) (a :: o2) (t :: l2) hi ->
+    elems_tight L lo (o1 ++ a :: o2) (l1 ++ t :: l2) hi.
+  Proof.
+    revert lo l1. induction o1 as [|b o1 IH]; intros lo [|u l1] H1 H2; cbn [app] in *; try (cbn [elems_tight] in H1; contradiction).
+    - exact H2.
+    - cbn [elems_tight eo_end] in *. destruct H1 as (E & H1). split; [exact E|]. apply IH; auto.
+  Qed.
+
+  (* the aligned address behind the data is storage-aligned, and aligning it again changes
+     nothing *)
+  Lemma eo_end_first_align lo offs l hi :
+    elems_ordered L lo offs l hi -> Forall (fun t => Forall2 cnt_ok L (cnts_of t)) l ->
+    0 <= lo -> (SA L | first_align L lo) ->
+    (SA L | first_align L (eo_end lo offs l)).
+  Proof.
+    revert lo l. induction offs as [|a offs IH]; intros lo [|t l] H Ht Hlo0 Hlo; cbn [elems_tight elems_ordered nth firstn skipn eo_end length app map] in *; try contradiction; [exact Hlo|].
+    destruct H as (H1 & H2 & H). inversion Ht; subst. pose proof (elem_end_ge a t).
+    eapply IH; eauto; [lia|]. apply first_align_end; auto. lia.
+  Qed.
+
+  Lemma first_align_idem x : (SA L | first_align L x) -> first_align L (first_align L x) = first_align L x.
+  Proof. intros H. apply first_align_aligned; auto. Qed.
 End Ordered.
